@@ -1,5 +1,18 @@
 /-
 C19 — dsDNA completion adds the antiparallel Watson–Crick complement.
+
+"Completing a strand of n nucleotides yields 2n residues: the original strand unchanged plus a second,
+separate strand in which residue n+k is the complement of residue n+1-k with 5' and 3' terminal roles
+exchanged, connected in that order with edge labels copied, a circular strand giving a circular
+complement. Complementing the added strand again recovers the original sequence, and unknown residue
+names are rejected."
+
+Theorems: `C19_table_watson_crick`, `C19_table_involution`, `C19_table_eq` (finite table facts, `decide`);
+`C19_complement` (model = specification, literally, for every strand; induction over the loop),
+`C19_second_strand` (what that means residue by residue and edge by edge), `C19_reject`,
+`C19_involutive`, `C19_involutive_model`, `C19_spec_defined_iff`, `C19_labels_literal`.
+The model (`Model/Dna.lean`) is tied to the real code by the correspondence in `harness/c19.py`.
+
 Property theorems only (helper lemmas live in Proofs/).  Each theorem is followed by a non-vacuity
 `example`.  `Tables.baseLibrary` is regenerated from `gen_dna.BASE_LIBRARY` on every run, so the table
 facts below are re-established against what the source says now.
@@ -43,5 +56,155 @@ theorem C19_spec_defined_iff (names : List String) (labels : List Attrs) (circ :
     (specGraph Tables.baseLibrary names labels circ).isSome ↔
       ∀ nm ∈ names, (lookup Tables.baseLibrary nm).isSome :=
   Proofs.Dna.specGraph_isSome_iff Tables.baseLibrary names labels circ
+
+example : (specGraph Tables.baseLibrary ["DA5", "DC", "DG3"] [] none).isSome = true := by decide
+
+/-- The repository's table and the pairing written in the property answer every query alike (also the
+unknown names: neither table knows a name the other does not). -/
+theorem C19_table_eq (nm : String) : lookup Tables.baseLibrary nm = lookup watsonCrick nm :=
+  Proofs.Dna.lookup_eq_of_tables Tables.baseLibrary watsonCrick (by decide) C19_table_watson_crick.2.2 nm
+
+example : lookup Tables.baseLibrary "DG5" = lookup watsonCrick "DG5" ∧
+    lookup watsonCrick "DG5" = some "DC3" ∧ lookup watsonCrick "XX" = none := by decide
+
+/-- **Main theorem (unbounded).**  For every strand of `n ≥ 1` residues whose names the table knows —
+linear, or circular with `n ≥ 3` — and arbitrary edge labels, the model of `complement_dsDNA` run with
+the repository's table returns *literally* the graph of the specification evaluated with the property's
+own Watson–Crick pairing: same node list, same edge list in creation order (strand edges untouched, then
+the `n-1` mirrored complement edges, then the closing edge iff circular), same `max_resid`.
+Proof: induction over the interleaved loop with the invariant `Proofs.Dna.stAt`.
+
+No hypothesis on the labels is needed: they may be arbitrary item lists (the specification copies them
+through `normAttrs` = "assign the items one by one to `{}`", the identity on real dictionaries, see
+`C19_labels_literal`).  The linear strand with n = 2 is the one place where this matters: there the
+iterator yields a closing edge (0,1) and the loop body re-assigns the attributes of the existing edge
+(3,2), which is harmless because assigning the same items twice is idempotent
+(`Proofs.Dna.Attrs.update_update_self`).  `circ.isSome → 3 ≤ n`: a 2-ring is the same edge twice and
+cannot be represented in a `networkx.Graph`. -/
+theorem C19_complement (names : List String) (labels : List Attrs) (circ : Option Attrs)
+    (hn : 1 ≤ names.length) (hc : circ.isSome → 3 ≤ names.length)
+    (hk : ∀ nm ∈ names, (lookup Tables.baseLibrary nm).isSome) :
+    ∃ g, specGraph watsonCrick names labels circ = some g ∧
+      complement Tables.baseLibrary (strandGraph names labels circ) = .ok g := by
+  refine ⟨Proofs.Dna.finalGraph Tables.baseLibrary names labels circ, ?_, ?_⟩
+  · rw [← Proofs.Dna.specGraph_congr Tables.baseLibrary watsonCrick C19_table_eq]
+    exact Proofs.Dna.specGraph_eq_final Tables.baseLibrary names labels circ hk
+  · exact Proofs.Dna.complement_eq_final Tables.baseLibrary names labels circ hn hc hk
+
+-- non-vacuity: a 3-residue linear and a 4-residue circular strand meet the hypotheses …
+example : ∃ g, specGraph watsonCrick ["DA5", "DC", "DG3"] [[("a", "1")], [("b", "2"), ("c", "3")]] none = some g ∧
+    complement Tables.baseLibrary (strandGraph ["DA5", "DC", "DG3"] [[("a", "1")], [("b", "2"), ("c", "3")]] none) = .ok g :=
+  C19_complement _ _ _ (by decide) (by decide) (by decide)
+
+example : ∃ g, specGraph watsonCrick ["DA", "DC", "DG", "DT"] [[("a", "1")], [], [("b", "2")]] (some [("x", "9")]) = some g ∧
+    complement Tables.baseLibrary (strandGraph ["DA", "DC", "DG", "DT"] [[("a", "1")], [], [("b", "2")]] (some [("x", "9")])) = .ok g :=
+  C19_complement _ _ _ (by decide) (by decide) (by decide)
+
+-- the n = 2 linear quirk (closing edge yielded on a linear strand) is inside the theorem's domain
+example : ∃ g, specGraph watsonCrick ["DA5", "DG3"] [[("a", "1"), ("b", "2")]] none = some g ∧
+    complement Tables.baseLibrary (strandGraph ["DA5", "DG3"] [[("a", "1"), ("b", "2")]] none) = .ok g :=
+  C19_complement _ _ _ (by decide) (by decide) (by decide)
+
+/-- On real dictionaries (distinct keys) the copied label is literally the original label. -/
+theorem C19_labels_literal (a : Attrs) (h : (a.map (·.1)).Nodup) : normAttrs a = a :=
+  Proofs.Dna.normAttrs_nodup a h
+
+example : normAttrs [("a", "1"), ("b", "2")] = [("a", "1"), ("b", "2")] :=
+  C19_labels_literal _ (by decide)
+
+-- … and the graph is the expected one (a test, by evaluation)
+example : (complement Tables.baseLibrary (strandGraph ["DA5", "DC", "DG3"] [[("a", "1")], [("b", "2")]] none)).toOption =
+    some ⟨[⟨0, 1, "DA5"⟩, ⟨1, 2, "DC"⟩, ⟨2, 3, "DG3"⟩, ⟨3, 4, "DC5"⟩, ⟨4, 5, "DG"⟩, ⟨5, 6, "DT3"⟩],
+         [⟨0, 1, [("a", "1")]⟩, ⟨1, 2, [("b", "2")]⟩, ⟨3, 4, [("b", "2")]⟩, ⟨4, 5, [("a", "1")]⟩], 6⟩ := by decide
+
+/-- **Unknown residue names are rejected (unbounded).**  If any name of the strand (any length ≥ 1,
+linear, or circular with n ≥ 3) is not in the table, the model raises — the `KeyError` of the first lookup or the
+`IOError` inside the loop — and returns no graph. -/
+theorem C19_reject (names : List String) (labels : List Attrs) (circ : Option Attrs)
+    (hn : 1 ≤ names.length) (hc : circ.isSome → 3 ≤ names.length)
+    (hbad : ∃ nm ∈ names, lookup watsonCrick nm = none) :
+    complement Tables.baseLibrary (strandGraph names labels circ) = .error "unknown-resname" := by
+  apply Proofs.Dna.complement_reject Tables.baseLibrary names labels circ hn hc
+  obtain ⟨nm, hm, hnone⟩ := hbad
+  exact ⟨nm, hm, by rw [C19_table_eq]; exact hnone⟩
+
+example : complement Tables.baseLibrary (strandGraph ["DA5", "ALA", "DG3"] [] none) = .error "unknown-resname" :=
+  C19_reject _ _ _ (by decide) (by decide) ⟨"ALA", by decide, by decide⟩
+
+example : complement Tables.baseLibrary (strandGraph ["DA", "DC", "DG", "DX"] [] (some [])) = .error "unknown-resname" :=
+  C19_reject _ _ _ (by decide) (by decide) ⟨"DX", by decide, by decide⟩
+
+/-- **The second strand (corollary of `C19_complement` and the table facts).**  The model's output
+keeps the first strand (first `n` nodes and the strand's edges, unchanged and in place); the added nodes
+are named `map comp (reverse names)` with the property's Watson–Crick `comp`, have keys `n..2n-1` and
+resids `n+1..2n`; the added edges are exactly the `n-1` chain edges `(n+k, n+k+1)` carrying the label of
+the mirrored edge `(n-2-k, n-1-k)`, followed by the closing edge `(2n-1, n)` with the closing label iff
+the input is circular; no edge joins the two strands. -/
+theorem C19_second_strand (names : List String) (labels : List Attrs) (circ : Option Attrs)
+    (hn : 1 ≤ names.length) (hc : circ.isSome → 3 ≤ names.length)
+    (hk : ∀ nm ∈ names, (lookup Tables.baseLibrary nm).isSome)
+    (hl : ∀ l ∈ labels, (l.map (·.1)).Nodup)
+    (hcn : ∀ a, circ = some a → (a.map (·.1)).Nodup) :
+    ∃ g, complement Tables.baseLibrary (strandGraph names labels circ) = .ok g ∧
+      g.nodes.length = 2 * names.length ∧
+      g.nodes.take names.length = (strandGraph names labels circ).nodes ∧
+      (g.nodes.drop names.length).map (fun x => some x.resname) = names.reverse.map (lookup watsonCrick) ∧
+      (g.nodes.drop names.length).map (·.key) = (List.range names.length).map (names.length + ·) ∧
+      (g.nodes.drop names.length).map (·.resid) = (List.range names.length).map (names.length + · + 1) ∧
+      g.edges = (strandGraph names labels circ).edges
+        ++ (List.range (names.length - 1)).map
+            (fun k => (⟨names.length + k, names.length + k + 1, labels.getD (names.length - 2 - k) []⟩ : REdge))
+        ++ (circ.map (fun a => (⟨2 * names.length - 1, names.length, a⟩ : REdge))).toList ∧
+      (g.edges.drop (strandGraph names labels circ).edges.length).length =
+        names.length - 1 + (if circ.isSome then 1 else 0) ∧
+      (∀ e ∈ g.edges, (e.u < names.length ∧ e.v < names.length) ∨
+                       (names.length ≤ e.u ∧ names.length ≤ e.v)) ∧
+      (3 ≤ names.length → g.hasEdge (2 * names.length - 1) names.length = circ.isSome) := by
+  refine ⟨Proofs.Dna.finalGraph Tables.baseLibrary names labels circ,
+    Proofs.Dna.complement_eq_final Tables.baseLibrary names labels circ hn hc hk, ?_,
+    Proofs.Dna.final_nodes_take _ _ _ _, ?_,
+    Proofs.Dna.final_second_keys _ _ _ _, Proofs.Dna.final_second_resids _ _ _ _,
+    Proofs.Dna.final_edges_nodup _ _ _ _ hl hcn,
+    Proofs.Dna.final_edges_drop_length _ _ _ _,
+    Proofs.Dna.final_no_cross _ _ _ _ hn hc,
+    Proofs.Dna.final_hasEdge_closing _ _ _ _ hc⟩
+  · simp [Proofs.Dna.finalGraph, Proofs.Dna.strand_nodes_length]; omega
+  · rw [Proofs.Dna.final_second_names Tables.baseLibrary names labels circ hk]
+    exact List.map_congr_left (fun nm _ => C19_table_eq nm)
+
+example :=
+  C19_second_strand ["DA5", "DC", "DG3"] [[("a", "1")], [("b", "2")]] none (by decide) (by decide) (by decide) (by decide) (by decide)
+
+example :=
+  C19_second_strand ["DA", "DC", "DG", "DT"] [[("a", "1")], [], [("b", "2")]] (some [("x", "9")]) (by decide) (by decide) (by decide) (by decide) (by decide)
+
+-- the same two instances by evaluation (tests)
+example : (match complement Tables.baseLibrary (strandGraph ["DA5", "DC", "DG3"] [[("a", "1")], [("b", "2")]] none) with
+    | .ok g => some ((g.nodes.drop 3).map (·.resname), g.hasEdge 5 3, g.hasEdge 2 3)
+    | .error _ => none) = some (["DC5", "DG", "DT3"], false, false) := by decide
+
+example : (match complement Tables.baseLibrary
+      (strandGraph ["DA", "DC", "DG", "DT"] [[("a", "1")], [], [("b", "2")]] (some [("x", "9")])) with
+    | .ok g => some ((g.nodes.drop 4).map (·.resname), (g.edge? 7 4).map (·.attrs), g.hasEdge 3 4)
+    | .error _ => none) = some (["DA", "DC", "DG", "DT"], some [("x", "9")], false) := by decide
+
+/-- **Involution at the level of the model (unbounded).**  Run the model on a strand; take the names of
+the added strand; they are all known, and running the model on a strand made of them (any labels, linear
+or circular) adds a strand whose names are the original sequence. -/
+theorem C19_involutive_model (names : List String) (labels : List Attrs) (circ : Option Attrs)
+    (hn : 1 ≤ names.length) (hc : circ.isSome → 3 ≤ names.length)
+    (hk : ∀ nm ∈ names, (lookup Tables.baseLibrary nm).isSome) :
+    ∃ g, complement Tables.baseLibrary (strandGraph names labels circ) = .ok g ∧
+      ∀ (labels2 : List Attrs) (circ2 : Option Attrs), (circ2.isSome → 3 ≤ names.length) →
+        ∃ g2, complement Tables.baseLibrary
+            (strandGraph ((g.nodes.drop names.length).map (·.resname)) labels2 circ2) = .ok g2 ∧
+          (g2.nodes.drop names.length).map (·.resname) = names :=
+  Proofs.Dna.complement_involutive Tables.baseLibrary C19_table_involution names labels circ hn hc hk
+
+example := C19_involutive_model ["DA5", "DC", "DG3"] [[("a", "1")], []] none (by decide) (by decide) (by decide)
+
+-- by evaluation (a test): complement of the complement of DA5-DC-DG3
+example : (match complement Tables.baseLibrary (strandGraph ["DC5", "DG", "DT3"] [] none) with
+    | .ok g => some ((g.nodes.drop 3).map (·.resname)) | .error _ => none) = some ["DA5", "DC", "DG3"] := by decide
 
 end PolyplyVerif.C19
